@@ -119,4 +119,6 @@ def drive(ctx):
         for (x, y, ab) in ((a, b, False), (b, a, False), (b, a, True)):
             ctx.emit("range", {"abs": ab, "unit": unit, "n": step}, [x, y])
         if unit == "days":
-            ctx.emit("range", {"abs": False, "unit": "days", "n": 1, "mode": "iter"}, [a, b])
+            # direct iteration (for d in interval), every orientation
+            for (x, y, ab) in ((a, b, False), (b, a, False), (b, a, True)):
+                ctx.emit("range", {"abs": ab, "unit": "days", "n": 1, "mode": "iter"}, [x, y])
